@@ -73,6 +73,14 @@ def configs(tier, seed):
     cfgs.append(dict(name="double point of A on B, dy=0", kind="translate", floats=True, fixed=["dy", "0"],
                      VA=[["0", "0"], ["2", "2"], ["2", "0"], ["0", "2"]], KA=["0", "1", "2", "3"],
                      VB=[["-1", "1"], ["3", "1"]], KB=["0", "1"], dxrange=["-1/4", "1/4"]))
+    # the last point of A lies in the interior of B's segment for every value of the translation (a T-junction): the curves meet
+    # there, at the very end of A's parameter interval
+    cfgs.append(dict(name="end point of A on B, dy=0", kind="translate", floats=True, fixed=["dy", "0"],
+                     VA=[["0", "0"], ["2", "0"], ["2", "2"]], KA=["0", "1", "2"],
+                     VB=[["1", "2"], ["3", "2"]], KB=["0", "1"], dxrange=["-1/2", "1/2"], endpoint=["2", "1/2", "-1/2"]))
+    cfgs.append(dict(name="start point of A on B, dy=0", kind="translate", floats=True, fixed=["dy", "0"],
+                     VA=[["2", "2"], ["2", "0"], ["0", "0"]], KA=["1", "2", "3"],
+                     VB=[["1", "2"], ["3", "2"]], KB=["0", "1"], dxrange=["-1/2", "1/2"], endpoint=["1", "1/2", "-1/2"]))
     cfgs.append(dict(name="bounding boxes never reject crossing segments", kind="box"))
     return cfgs
 
@@ -175,5 +183,15 @@ def body(env, cfg):
             if bool((e1 <= tol) & (-e1 <= tol) & (e2 <= tol) & (-e2 <= tol)):
                 hits += 1
         env.holds("the crossing at the polyline vertex is reported, once", hits == 1 and len(res) == 1)
+    if cfg.get("endpoint"):
+        # expected pair: t fixed, u = u0 + slope * dx
+        t0, u0, slope = [F(x) for x in cfg["endpoint"]]
+        ustar = u0 + slope * dx
+        hits = 0
+        for (t, u) in res:
+            e1, e2 = t - t0, u - ustar
+            if bool((e1 <= tol) & (-e1 <= tol) & (e2 <= tol) & (-e2 <= tol)):
+                hits += 1
+        env.holds("the meeting point at the end of A's interval is reported, once", hits == 1 and len(res) == 1)
     # "curves that do not meet give ()" is the contrapositive of the per-pair obligation above: every returned pair has
     # |A(t) - B(u)| <= 1e-6, so a non-empty result means the curves meet (to 1e-6)
